@@ -95,9 +95,12 @@ func checkC09(w *Worker) {
 				if j > 0 {
 					nk = secondKinds // quick: the second planted line takes one shape of each kind
 				}
+				if j == 0 && kmin == 2 && secondKinds < len(c09Bad) {
+					nk = 4 // quick, two planted lines: four shapes for the first one too (all nine are used with k = 1)
+				}
 				bi := x.Choose(nk, "input:bad-kind")
-				if j > 0 && nk < len(c09Bad) {
-					bi = []int{0, 3, 7, 8}[bi%4] // one shape of each kind (and the quoted/backslash shapes in thorough)
+				if nk < len(c09Bad) {
+					bi = []int{0, 3, 7, 8, 1, 5}[(bi+2*j)%6] // one shape of each kind, different ones for the two lines
 				}
 				b := c09Bad[bi]
 				pl = append(pl, planted{pos, b})
